@@ -2,6 +2,7 @@ import Cpl.Driver.Proto
 import Cpl.Driver.OpsEvolve1D
 import Cpl.Driver.OpsEvolve2D
 import Cpl.Model.Rules
+import Cpl.Gen.Tables
 
 namespace Cpl.Driver
 open Cpl.Proto Cpl Cpl.Dsl
@@ -93,7 +94,7 @@ def opsRules (op : String) (a : Args) : Option String :=
             match row with
             | [i, j, t] => some ((i.toNat, j.toNat), t.toNat)
             | _ => none
-          let cfg : SandpileCfg := { rows := g.length, cols := gridCols g, closed := closed != 0, grains := gr }
+          let cfg : SandpileCfg := { K := Cpl.Gen.sandpileK, rows := g.length, cols := gridCols g, closed := closed != 0, grains := gr }
           match evolve2dFixed hist T (sandpileRule2 cfg) 1 .vonNeumann mode () with
           | .ok (gs, _) => "ok grids=" ++ showHist gs
           | .error e => showErr e
